@@ -128,7 +128,7 @@ Proof.
     unfold suppress_leave, combine. cbn. rewrite H. reflexivity.
   - intros b _ hs _ e _ f IHf st H. cbn [visit_s]. destruct (is_nil f).
     + unfold te_finish, combine. cbn. rewrite H. reflexivity.
-    + apply IHf. unfold fin_second_entry, combine. cbn. rewrite H. reflexivity.
+    + apply IHf. unfold fin_second_entry, combine. cbn [cur ls]. rewrite fin_mid_cur. rewrite H. reflexivity.
   - intros s IHs r IHr st H. cbn [visit_b]. auto.
 Qed.
 
